@@ -28,7 +28,7 @@ def corpus_by_version():
 
 
 def build_batches(scratch, versions, tier, rng_tag, n_stdlib, n_gen, batch=25, focus=None, with_corpus=True,
-                  gen_snippets=None):
+                  gen_snippets=None, must_templates=()):
     """Return list of batch dicts: {v, items, mode, workdir, tag}."""
     batches = []
     corp = corpus_by_version() if with_corpus else {}
@@ -48,6 +48,15 @@ def build_batches(scratch, versions, tier, rng_tag, n_stdlib, n_gen, batch=25, f
                 f.write(src_text)
             items.append({"src": sp, "pyc": os.path.join(wd, "g%05d.pyc" % i), "filename": "gen%05d.py" % i,
                           "tags": tags})
+        # programs that must be present whatever the seed: one per named feature template
+        for j, tname in enumerate(must_templates):
+            src_text, tags = G.gen_single(K.get_seed(), v, tname)
+            if src_text is None:
+                continue
+            sp = os.path.join(wd, "m%03d_%s.py" % (j, tname))
+            with open(sp, "w", encoding="utf-8", errors="surrogatepass") as f:
+                f.write(src_text)
+            items.append({"src": sp, "pyc": sp + "c", "filename": "must_%s.py" % tname, "tags": tags})
         rng.shuffle(items)
         for bi, chunk in enumerate(K.chunks(items, batch)):
             batches.append({"v": v, "items": chunk, "mode": "compile", "workdir": wd, "tag": "b%d" % bi})
